@@ -20,14 +20,17 @@ PID = "C17"
 G = {}
 
 
-def call_index(unit, element, w, c, rules, same_id=None):
+HOSTILE_FOREIGN = ["%s", "100%d", "%(name)s", "percent%", "{0}", "{name}", "", " ", "a:b", "\\N{X}", "\u00e9l\u00e9ment", "x" * 500]
+
+
+def call_index(unit, element, w, c, rules, same_id=None, foreign_name=None):
     from metapype.eml import rule
     from metapype.model.node import Node
     from metapype.eml.exceptions import ChildNotAllowedError
     p = c01.realise(unit, element, w, rules, same_id=same_id)
     r = rule.get_rule(element) if element else rule.Rule(unit)
     try:
-        got = r.child_insert_index(p, Node(c01.FOREIGN_NAME if c == c01.FOREIGN else c))
+        got = r.child_insert_index(p, Node((foreign_name if foreign_name is not None else c01.FOREIGN_NAME) if c == c01.FOREIGN else c))
         res = ("idx", got)
     except ChildNotAllowedError:
         res = ("refused", -1)
@@ -48,8 +51,14 @@ def w_insert(idx):
         cases = [(c, acc, None) for c, acc in list(accs.items()) + [(c01.FOREIGN, [])]]
         if len(w) >= 2:          # the same sequence with siblings that were all constructed with one explicit id
             cases += [(c, acc, "dup-id") for c, acc in accs.items()]
+        names_sigma = set(G["dfa_sigma"].get(unit, ()))
+        if i % 5 == 0:           # the one foreign name of the model realised by names that mean something to string formatting
+            cases += [(c01.FOREIGN, [], "foreign:" + h) for h in HOSTILE_FOREIGN if h not in names_sigma]
         for c, acc, same_id in cases:
-            kind, got = call_index(unit, el, w, c, rules, same_id)
+            fname = None
+            if same_id and same_id.startswith("foreign:"):
+                fname, same_id = same_id[8:], None
+            kind, got = call_index(unit, el, w, c, rules, same_id, fname)
             n += 1
             replay = {"kind": "insert", "unit": unit, "element": el, "children": w, "candidate": c, "acceptable": acc, "children_constructed_with_id": same_id}
             unit_ = unit
@@ -91,7 +100,7 @@ def run(rep, tier, seed):
     for el, ru in node_map.items():
         if el != "metadata":
             elem.setdefault(ru, el)
-    G.update(I=I, rules=rules, elem=elem)
+    G.update(I=I, rules=rules, elem=elem, dfa_sigma={u: list(d.sigma) for u, d in dfas.items()})
     res = parallel(w_insert, range(len(I)))
     nI = 0
     for n, outl in res:
